@@ -50,14 +50,38 @@ func verifObserve(h *History[int]) verifkit.M {
 	return obs
 }
 
+/* with equal elements next to each other the walk through the public operations cannot tell positions apart:
+   such sessions are observed through the fields (this file is part of the package) */
+func verifObserveFields(h *History[int]) verifkit.M {
+	obs := verifkit.M{"empty": h.IsEmpty(), "current": -1, "elems": []int{}, "idx": 0}
+	if h.IsEmpty() {
+		return obs
+	}
+	obs["current"] = h.Current()
+	obs["elems"] = append([]int{}, h.elements...)
+	obs["idx"] = h.index + 1
+	return obs
+}
+
 func verifSession(out *verifkit.Trace, sid int, ops []verifOp) {
 	out.Emit(verifkit.M{"ev": "reset", "sid": sid, "kind": "history"})
 	h := History[int]{}
 	next := 1
+	equalNeighbours := false
+	for _, op := range ops {
+		equalNeighbours = equalNeighbours || op.Op == "readd"
+	}
 	for _, op := range ops {
 		var obs verifkit.M
 		panicked, _ := verifkit.Try(func() {
 			switch op.Op {
+			case "readd":
+				/* the page that is shown is opened once more: an entry like any other */
+				if h.IsEmpty() {
+					h.Add(0)
+				} else {
+					h.Add(h.Current())
+				}
 			case "add":
 				h.Add(next)
 			case "back":
@@ -65,7 +89,11 @@ func verifSession(out *verifkit.Trace, sid int, ops []verifOp) {
 			case "forward":
 				h.Forward()
 			}
-			obs = verifObserve(&h)
+			if equalNeighbours {
+				obs = verifObserveFields(&h)
+			} else {
+				obs = verifObserve(&h)
+			}
 		})
 		if op.Op == "add" {
 			next++
@@ -95,7 +123,7 @@ func TestVerifHistory(t *testing.T) {
 		verifSession(out, sid, s)
 	}
 	rng := verifkit.Rand()
-	names := []string{"add", "back", "forward", "back", "forward"}
+	names := []string{"add", "back", "forward", "back", "forward", "add", "back", "forward", "back", "forward", "readd"}
 	for i := 0; i < in.Random; i++ {
 		n := 1 + rng.Intn(in.MaxLen)
 		ops := make([]verifOp, n)
